@@ -2904,11 +2904,13 @@ impl Interpreter {
             (new_env, Some(guard))
         };
 
-        // Set the generator's environment as the current environment
+        // Set the generator's environment as the current environment.
+        // A freshly created environment is kept rooted by this local guard while the
+        // body runs; afterwards it stays reachable through gen_state.func_env.
+        // (Pushing the guard on env_guards had no matching pop on any exit path and
+        // leaked one guard - and with it the environment - per generator.)
         self.env = gen_env;
-        if let Some(guard) = env_guard {
-            self.push_env_guard(guard);
-        }
+        let _env_guard = env_guard;
 
         let vm_guard = self.heap.create_guard();
 
